@@ -10,11 +10,11 @@ from ..stateful import Mismatch
 
 PROPERTY = 'C15'
 RULE = ("sum, cumsum, prod, cumprod, dot, matmul, trace, max, min, sort, clip, transpose, diagonal on fixed-point arrays of shapes (1..8,) and up to 3x3, n_word<=12, through the numpy function and the method, "
-        "axis None, any valid axis, both axes as a tuple, keepdims (diagonal/trace also with axis1/axis2 exchanged; transpose: no axes / any permutation as axes / .T; clip: both limits, one limit, list / ndarray / fixed-point limits which must come back unmodified, raw and repr method); elements all-lowest, all-highest, alternating extremes or random; dot/matmul with a second operand of independent format and signedness (1-d.1-d, 2-d.1-d, 2-d.2-d). "
+        "axis None, any valid axis, both axes as a tuple, keepdims (diagonal/trace also with axis1/axis2 exchanged; transpose: no axes / any permutation as axes / .T; clip: both limits, one limit, list / ndarray / fixed-point limits which must come back unmodified, raw and repr method); elements all-lowest, all-highest, alternating extremes or random; dot/matmul (np.dot, x.dot, np.matmul, x @ y; with the array_op_method option at its default, 'raw' or 'repr') with a second operand of independent format and signedness (1-d.1-d, 2-d.1-d, 2-d.2-d). "
         "Oracle: the same numpy reduction applied to an object array of Fractions built from the codes (numpy only iterates, the arithmetic is Fraction's): exact values and shape; result is an Fxp; "
         "no overflow/underflow flag for the accumulating functions; both routes agree. Result word <=53 (prod/cumprod only when n*n_word<=53). "
         "Non-trivial = >=2 elements with at least one extreme, or axis not None, or mixed signedness in dot; distinct = distinct case keys.")
-ASSUMPTIONS = ['operands created from raw codes with default configuration', 'numpy is trusted to iterate object arrays; the `@` operator is not implemented by the library and is outside the statement']
+ASSUMPTIONS = ['operands created from raw codes with default configuration', 'numpy is trusted to iterate object arrays']
 EXHAUSTIVE = False
 REQUIRED_CLASSES = {'all-extreme': 1000, 'axis': 1000, 'dot-mixed-sign': 200, 'route:method': 2000, 'route:numpy': 2000}
 ACC = ('sum', 'cumsum', 'prod', 'cumprod', 'trace', 'dot', 'matmul')
@@ -166,17 +166,30 @@ def check_dot(ctx, case):
     func, route = case['func'], case['route']
     F = C.Fxp()
     ctx.ev()
-    sig = 'func/%s/%s/%s' % (func, fclass(fx) if fclass(fx) != 'nfrac-in-word' else fclass(fy), route)
+    sig = 'func/%s/%s/%s%s' % (func, fclass(fx) if fclass(fx) != 'nfrac-in-word' else fclass(fy), route, '/array_op_method=' + case['array_op_method'] if case.get('array_op_method') else '')
     A, B = frac_array(cx, fx, sx), frac_array(cy, fy, sy)
     expected = np.dot(A, B)
 
     def do():
         x = F(np.array(cx, dtype=np.int64).reshape(sx), fx[0], fx[1], fx[2], raw=True)
         y = F(np.array(cy, dtype=np.int64).reshape(sy), fy[0], fy[1], fy[2], raw=True)
+        if case.get('array_op_method'):
+            x.config.array_op_method = y.config.array_op_method = case['array_op_method']
         if func == 'matmul':
+            if route == 'operator':
+                try:
+                    return x @ y
+                except TypeError as e:
+                    if 'unsupported operand' in str(e):
+                        raise Mismatch('operator-not-supported', {'error': str(e)[:120]})
+                    raise
             return np.matmul(x, y)
         return np.dot(x, y) if route == 'numpy' else x.dot(y)
-    ok, z = ctx.guard(case, do, sig_prefix=sig + '/')
+    try:
+        ok, z = ctx.guard(case, do, sig_prefix=sig + '/')
+    except Mismatch as e:
+        ctx.fail('%s/%s' % (sig, e.sig), case, e.detail)
+        return
     if not ok:
         return
     if not isinstance(z, F):
@@ -295,7 +308,8 @@ def st_dot(draw):
     cy, ky = draw(st_elems(fy, int(np.prod(sy))))
     func = draw(st.sampled_from(['dot', 'dot', 'matmul']))
     return {'check': 'dot', 'func': func, 'fx': list(fx), 'fy': list(fy), 'shape_x': sx, 'shape_y': sy, 'cx': cx, 'cy': cy,
-            'kind': kx + '/' + ky, 'route': draw(st.sampled_from(['numpy', 'method'])) if func == 'dot' else 'numpy'}
+            'kind': kx + '/' + ky, 'route': draw(st.sampled_from(['numpy', 'method'])) if func == 'dot' else draw(st.sampled_from(['numpy', 'operator'])),
+            'array_op_method': draw(st.sampled_from([None, None, 'raw', 'repr']))}
 
 
 def body(ctx, case):
